@@ -280,9 +280,54 @@ def _enter_scratch():
     return _SCRATCH
 
 
+_COV = None
+
+
+def _coverage_start():
+    """VERIF_COVERAGE=<dir>: records which lines of the library the correspondence executes (sys.monitoring,
+    each line reported once), one JSON file per worker process; harness/coverage_report.py merges them and
+    lists the executable lines of cfinterface that NO check ever runs — the part of the code that is
+    neither modelled nor tied to the model."""
+    global _COV
+    d = os.environ.get("VERIF_COVERAGE")
+    if not d or _COV is not None or not hasattr(sys, "monitoring"):
+        return
+    import atexit
+
+    _COV = set()
+    mon = sys.monitoring
+    tool = mon.COVERAGE_ID
+    try:
+        mon.use_tool_id(tool, "verif-cov")
+    except ValueError:
+        return
+    root = str(REPO / "cfinterface")
+
+    def on_line(code, line):
+        if code.co_filename.startswith(root):
+            _COV.add((code.co_filename[len(str(REPO)) + 1 :], line))
+        return mon.DISABLE
+
+    mon.register_callback(tool, mon.events.LINE, on_line)
+    mon.set_events(tool, mon.events.LINE)
+
+    def dump():
+        Path(d).mkdir(parents=True, exist_ok=True)
+        (Path(d) / f"{os.getpid()}.json").write_text(json.dumps(sorted(_COV)))
+
+    atexit.register(dump)
+    # worker processes of a pool are ended with os._exit: dump after every chunk as well
+    global _coverage_dump
+    _coverage_dump = dump
+
+
+_coverage_dump = None
+
+
 def _work(args):
     modname, chunk = args
     sys.path.insert(0, str(REPO))
+    _coverage_start()
     _enter_scratch()
     mod = importlib.import_module(modname)
     t0 = time.time()
@@ -324,6 +369,8 @@ def _work(args):
         stats["samples"] = [recs[0]["case"], recs[len(recs) // 2]["case"]]
     stats["chunk"] = chunk
     stats["wall"] = time.time() - t0
+    if _coverage_dump is not None:
+        _coverage_dump()
     return stats
 
 
@@ -350,9 +397,11 @@ def run_chunks(modname: str, chunks: list) -> dict:
 # shrinking / replay / known findings
 
 
-def shrink(mod, rec: dict, want: str, budget: int = 400) -> dict:
+def shrink(mod, rec: dict, want: str, budget: int = 400, reject=None) -> dict:
     """Greedy delta debugging with the property module's `shrinks(case)`
-    candidates; keeps a candidate if it still fails with the same status."""
+    candidates; keeps a candidate if it still fails with the same status — and is not `reject`ed: a failure
+    that is NOT a listed known finding must not be shrunk INTO one (the smaller case would then be printed
+    as the known finding and the different violation it came from would be lost)."""
     best = rec
     tried = 0
     improved = True
@@ -369,7 +418,7 @@ def shrink(mod, rec: dict, want: str, budget: int = 400) -> dict:
                 recs = eval_cases(mod, batch)
             except Exception:
                 continue
-            hit = next((r for r in recs if r["verdict"]["status"] == want), None)
+            hit = next((r for r in recs if r["verdict"]["status"] == want and not (reject is not None and reject(r["case"]))), None)
             if hit is not None:
                 best = hit
                 improved = True
